@@ -78,6 +78,8 @@ pub enum Event {
     Expand { tid: u32, input: u32 },
     Perturb { tid: u32, n: u32, seed: u64 },
     Order { tid: u32, policy: u8, seed: u64 },
+    /// attribution only: order policy restricted to one iteration site "<file>:<line>"
+    OrderAt { tid: u32, policy: u8, seed: u64, site: String },
     /// selftest only: report a stack and a heap address
     Addr,
 }
@@ -276,6 +278,7 @@ pub fn run_host(env: &Env, backend: Backend, build: Build, texts: &[(u32, String
             Event::Expand { tid, input } => plan.push_str(&format!("E {} {} {}\n", pos, tid, input)),
             Event::Perturb { tid, n, seed } => plan.push_str(&format!("P {} {} {}\n", tid, n, seed)),
             Event::Order { tid, policy, seed } => plan.push_str(&format!("O {} {} {}\n", tid, policy, seed)),
+            Event::OrderAt { tid, policy, seed, site } => plan.push_str(&format!("O {} {} {} {}\n", tid, policy, seed, site)),
             Event::Addr => plan.push_str("A\n"),
         }
     }
